@@ -654,7 +654,13 @@ func runCliAndReaders(h *H, prop string, n int) {
 		for _, c := range g.r.Perm(dim * dim)[:g.intn(dim*dim+1)] {
 			rec := []string{id(c / dim), id(c % dim)}
 			if g.intn(3) != 0 {
-				rec = append(rec, fmtLevel(g))
+				lv := fmtLevel(g)
+				if g.intn(4) == 0 {
+					// an explicit zero level: not stored, but its peers still count for the dimension
+					lv = []string{"0", "0.0", "-0", "0e0"}[g.intn(4)]
+					g.count("reader-zero-level")
+				}
+				rec = append(rec, lv)
 			}
 			recs = append(recs, rec)
 		}
